@@ -254,6 +254,8 @@ class Evaluator:
             for op, c in zip(n.ops, n.comparators):
                 right = self.eval(c, env)
                 r = self.compare(op, left, right)
+                if len(n.ops) == 1:
+                    return r
                 if not self.truth(r):
                     return r if len(n.ops) == 1 else False
                 left = right
@@ -350,7 +352,7 @@ class Evaluator:
     def binop(self, op: ast.operator, a: Any, b: Any, n: ast.AST) -> Any:
         if isinstance(op, (ast.Add, ast.Sub)) and (isinstance(a, Lin) or isinstance(b, Lin)):
             return a + b if isinstance(op, ast.Add) else (Lin.of(a) - b)
-        if isinstance(op, ast.Add) and isinstance(a, (list, tuple)) and type(a) is type(b):
+        if isinstance(op, ast.Add) and isinstance(a, (list, tuple, str)) and type(a) is type(b):
             return a + b
         num = lambda x: isinstance(x, int) and not isinstance(x, bool)  # noqa: E731
         if num(a) and num(b):
@@ -396,11 +398,17 @@ class Evaluator:
                 if f is None:
                     raise Undecided("equality on a symbolic integer")
                 r = f(a, b)
+            elif "__compare__" in self.funcs and (isinstance(a, (Obj, Tag)) or isinstance(b, (Obj, Tag))) and not (
+                isinstance(a, Tag) and isinstance(b, Tag)
+            ):
+                return self.funcs["__compare__"](op, a, b)
             else:
                 r = a == b
             return r if isinstance(op, ast.Eq) else not r
-        _cmp_guard(a, b)
         num = lambda x: isinstance(x, int) and not isinstance(x, bool)  # noqa: E731
+        if not (num(a) and num(b)) and "__compare__" in self.funcs:
+            return self.funcs["__compare__"](op, a, b)
+        _cmp_guard(a, b)
         if num(a) and num(b):
             if isinstance(op, ast.Lt):
                 return a < b
@@ -616,6 +624,9 @@ BUILTINS: Dict[str, Callable[..., Any]] = {
     "any": lambda xs: any(xs),
     "int": lambda x: int(x) if isinstance(x, (int, bool)) else (_ for _ in ()).throw(Undecided("int()")),
     "bool": lambda x: bool(x) if isinstance(x, (int, bool)) else (_ for _ in ()).throw(Undecided("bool()")),
+    "str": lambda x: str(x) if isinstance(x, (int, str)) and not isinstance(x, bool) else (_ for _ in ()).throw(Undecided("str()")),
+    "dict": lambda *a: dict(*a),
+    "set": lambda *a: set(*a),
     "cast": lambda t, v: v,
     "typing.cast": lambda t, v: v,
 }
